@@ -61,10 +61,14 @@ class NoteContainer(object):
             elif len(self.notes) == 0:
                 note = Note(note, 4, dynamics)
             else:
-                if Note(note, self.notes[-1].octave) < self.notes[-1]:
-                    note = Note(note, self.notes[-1].octave + 1, dynamics)
-                else:
-                    note = Note(note, self.notes[-1].octave, dynamics)
+                top = self.notes[-1]
+                bare = "-" not in note
+                note = Note(note, top.octave, dynamics)
+                if bare:
+                    # Voice the name at or above the top note, less than an
+                    # octave above it (names like Cbb or B# lie outside the
+                    # octave their number suggests).
+                    note.octave -= (int(note) - int(top)) // 12
         if not hasattr(note, "name"):
             raise UnexpectedObjectError(
                 "Object '%s' was not expected. " "Expecting a mingus.containers.Note object." % note
